@@ -28,7 +28,8 @@ C16_Holds(c, in, o) ==
     [] c = "count"    -> o.expanded => Len(o.tname) = n
     \* one plain identifier per parameter (no `mut`, `ref`, `@`, no pattern)
     [] c = "plain"    -> o.expanded => \A i \in 1..Len(o.tname) : o.tkind[i] = "ident" /\ o.tdeco[i] = ""
-    [] c = "distinct" -> o.expanded => Distinct1(o.tname, SameId)
+    \* (including the parameters the macro inserts itself - `__impl` for the functions of an entraited impl block)
+    [] c = "distinct" -> o.expanded => Distinct1(o.inserted \o o.tname, SameId)
     [] c = "noshadow" -> o.expanded => \A i \in 1..Len(o.tname) : ~SameId(o.tname[i], in.f)
     \* forwarded positionally to the function itself
     [] c = "forward"  -> o.expanded =>
@@ -36,9 +37,12 @@ C16_Holds(c, in, o) ==
                            /\ o.selfarg = ~in.nodeps
                            /\ Len(o.callargs) = Len(o.tname)
                            /\ \A i \in 1..Len(o.tname) : SameId(o.callargs[i], o.tname[i])
-    \* a plain binding keeps its name - unless that would shadow the function (first sentence wins)
+    \* a plain binding keeps its name - unless that would shadow the function or repeat the name of a parameter that
+    \* the macro inserts itself (first sentence wins)
     [] c = "keep"     -> o.expanded /\ Len(o.tname) = n =>
-                           \A i \in 1..n : in.plain[i] /\ ~SameId(in.binds[i][1], in.f) => SameId(o.tname[i], in.binds[i][1])
+                           \A i \in 1..n : in.plain[i] /\ ~SameId(in.binds[i][1], in.f)
+                                           /\ (\A j \in DOMAIN o.inserted : ~SameId(o.inserted[j], in.binds[i][1]))
+                                           => SameId(o.tname[i], in.binds[i][1])
     \* a destructuring pattern with a single binding takes that binding's name.  Reading: a "binding" is a
     \* lower-case identifier (constants and `_x` placeholders are not told apart by a macro); and the first
     \* sentence wins when the binding's name is the function's or another parameter's name
@@ -293,7 +297,8 @@ C13_Fail(in, o) == { c \in C13_Conj : ~C13_Holds(c, in, o) }
 (*       the declared type), w_send (a generic caller may require Send),   *)
 (*       w_nonsend_body (a body holding a !Send value across an await),    *)
 (*       and the projected trait (X): kept_async, futout, futsend,         *)
-(*       attr_on_trait, attr_on_impls, dyn_requested                       *)
+(*       attr_on_trait, attr_on_impls, attr_on_item (the re-emitted         *)
+(*       function / module still carries the async_trait attribute)        *)
 (***************************************************************************)
 C12_Conj == {"output-exact", "output-exact-tokens", "send-by-default", "send-is-required", "optout-honoured", "async-trait-kept-and-reapplied", "compiles"}
 C12_Holds(c, in, o) ==
@@ -305,14 +310,16 @@ C12_Holds(c, in, o) ==
     [] c = "send-is-required"    -> ~in.nosend /\ ~in.asynctrait => ~o.w_nonsend_body
     \* with ?Send no Send requirement is imposed: non-Send bodies are accepted and callers cannot assume Send
     [] c = "optout-honoured"     -> in.nosend /\ ~in.asynctrait => o.w_nonsend_body /\ ~o.w_send /\ (o.expanded => ~o.futsend)
-    [] c = "async-trait-kept-and-reapplied" -> in.asynctrait /\ o.expanded => o.kept_async /\ o.attr_on_trait /\ o.attr_on_impls
+    \* ("instead": an annotated function or module does not keep the attribute - attr_on_item)
+    [] c = "async-trait-kept-and-reapplied" -> in.asynctrait /\ o.expanded => o.kept_async /\ o.attr_on_trait /\ o.attr_on_impls /\ ~o.attr_on_item
 C12_Fail(in, o) == { c \in C12_Conj : ~C12_Holds(c, in, o) }
 
 (***************************************************************************)
 (* C18  Foreign attributes stay where the user put them.                   *)
 (*  in : [place \in {"fn", "param", "modfn", "implfn", "traitmethod"},     *)
 (*        kind \in {"doc", "lint", "cfgon", "cfgoff", "tool", "inert",     *)
-(*        "cfgattr", "cfgonoff" (stacked cfgs: enabled, then disabled)}]    *)
+(*        "cfgattr", "cfgonoff" (stacked cfgs: enabled, then disabled),     *)
+(*        "cfgattroff" (a disabled cfg applied through cfg_attr)}]          *)
 (*  o  : counts of the marker attribute in the expansion: on the user's    *)
 (*       own item (orig), on generated traits / impls (gen_items), on      *)
 (*       generated trait methods (gen_trait_methods), on the methods of    *)
@@ -325,12 +332,12 @@ C18_Holds(c, in, o) ==
   CASE c = "stays-on-original" -> o.expanded => o.orig = 1
     [] c = "not-copied-to-generated-items" -> o.expanded => o.gen_items = 0
     \* a cfg on a module / impl-block function may (must, when it is off) also guard the generated method
-    [] c = "not-copied-to-generated-methods" -> o.expanded /\ in.place \in {"fn", "param", "modfn", "implfn"} /\ ~(in.kind \in {"cfgon", "cfgoff", "cfgonoff"} /\ in.place \in {"modfn", "implfn"})
+    [] c = "not-copied-to-generated-methods" -> o.expanded /\ in.place \in {"fn", "param", "modfn", "implfn"} /\ ~(in.kind \in {"cfgon", "cfgoff", "cfgonoff", "cfgattroff"} /\ in.place \in {"modfn", "implfn"})
                                                  => o.gen_trait_methods = 0 /\ o.gen_impl_methods = 0
     [] c = "param-attrs-stripped" -> o.expanded /\ in.place = "param" => o.gen_params = 0
     [] c = "trait-method-attrs-mirrored" -> o.expanded /\ in.place = "traitmethod" => o.gen_impl_methods >= 1
-    [] c = "no-dangling-method" -> in.kind \in {"cfgoff", "cfgonoff"} /\ in.place \in {"modfn", "implfn", "traitmethod"} => o.compiled
-    [] c = "compiles" -> in.kind \notin {"cfgoff", "cfgonoff"} => o.compiled
+    [] c = "no-dangling-method" -> in.kind \in {"cfgoff", "cfgonoff", "cfgattroff"} /\ in.place \in {"modfn", "implfn", "traitmethod"} => o.compiled
+    [] c = "compiles" -> in.kind \notin {"cfgoff", "cfgonoff", "cfgattroff"} => o.compiled
 C18_Fail(in, o) == { c \in C18_Conj : ~C18_Holds(c, in, o) }
 
 (***************************************************************************)
